@@ -1022,6 +1022,46 @@ def _blank_instance(cls):
 
 # ------------------------------------------------------------------------------------------------ serializer
 
+def unrolled_size(heap, root, depth: int = 48, cap: int = 30000) -> int:
+    """Number of nodes the serializer / converter visits when it walks the object graph WITHOUT memoising shared or cyclic parts,
+    followed to `depth` levels and capped at `cap`.  A simple cycle costs `depth`; a cycle with fan-out >= 2 (a list holding the
+    same ancestor twice) is exponential - such graphs keep the real code busy for minutes before the interpreter stack ends the
+    walk, so the generators skip them (the heap model would agree, but nothing is learned from a 2**40-step run)."""
+    objs = {i: d for i, d in heap}
+    memo: dict = {}
+
+    def kids(v):
+        if isinstance(v, dict) and "ref" in v:
+            return [v["ref"]]
+        return []
+
+    def children(i):
+        d = objs.get(i, {})
+        if "list" in d:
+            return [c for v in d["list"] for c in kids(v)]
+        if "dict" in d:
+            return [c for _k, v in d["dict"] for c in kids(v)]
+        return [c for _n, v in d.get("f", []) for c in kids(v)]
+
+    def size(i, dep):
+        if dep == 0:
+            return 1
+        key = (i, dep)
+        if key in memo:
+            return memo[key]
+        memo[key] = cap          # re-entrancy guard while computing
+        t = 1
+        for c in children(i):
+            t += size(c, dep - 1)
+            if t >= cap:
+                t = cap
+                break
+        memo[key] = t
+        return t
+    r = kids(root)
+    return sum(size(i, depth) for i in r) if r else 1
+
+
 class HeapGen:
     """A random object graph over the classes of a Case: heap description for the model + the live objects."""
 
@@ -1294,7 +1334,7 @@ def _serializer_cases(rng, scale, cc, Ser, add, bump):
             root, _ = hg.hval({"dict": rng.choice([{"dc": roots[0]}, "any"])}, 0)
         else:
             root, _ = hg.hval("any", 0)
-        if len(hg.heap) > 400:
+        if len(hg.heap) > 400 or unrolled_size(hg.heap, root) >= 30000:
             continue
         for f in hg.feats:
             bump("serializer graph has " + f)
@@ -1329,7 +1369,7 @@ def _unstructure_cases(rng, scale, cc, add, bump):
         root_cls = c.gen_class(0)
         hg = HeapGen(c, rng, 0.0)
         root, _ = hg.hval(rng.choice([{"dc": root_cls}, {"dc": root_cls}, {"list": {"dc": root_cls}}, "any"]), 0)
-        if len(hg.heap) > 200:
+        if len(hg.heap) > 200 or unrolled_size(hg.heap, root) >= 30000:
             continue
         val = hg.materialise()
         obj = val(root)
@@ -1853,7 +1893,7 @@ def oracle(seed: int = 16, scale: float = 1.0) -> dict:
         top = rng.choice(["inst", "inst", "list", "dict"])
         root, _ = hg.hval({"dc": root_cls} if top == "inst" else {"list": {"dc": root_cls}} if top == "list"
                           else {"dict": {"dc": root_cls}}, 0)
-        if len(hg.heap) > 300:
+        if len(hg.heap) > 300 or unrolled_size(hg.heap, root) >= 30000:
             continue
         case = {"prop": "serializer", "decls": c.decls, "ty": None, "heap": hg.heap, "root": root}
         if hg.feats & {"uuid", "time"}:
